@@ -5,9 +5,11 @@ package we
 
 import (
 	"context"
+	"encoding/hex"
 	"errors"
 	"fmt"
 	"io"
+	"os"
 	"sort"
 	"strconv"
 	"strings"
@@ -15,6 +17,8 @@ import (
 	"testing/synctest"
 	"time"
 
+	"golang.org/x/net/http2"
+	"google.golang.org/genproto/googleapis/rpc/errdetails"
 	"google.golang.org/grpc"
 	"google.golang.org/grpc/codes"
 	"google.golang.org/grpc/credentials/insecure"
@@ -24,6 +28,7 @@ import (
 	"google.golang.org/grpc/mem"
 	"google.golang.org/grpc/metadata"
 	"google.golang.org/grpc/status"
+	"google.golang.org/protobuf/protoadapt"
 
 	"google.golang.org/grpc/internal/zzverif/core"
 	"google.golang.org/grpc/internal/zzverif/simnet"
@@ -31,6 +36,10 @@ import (
 )
 
 func init() {
+	if os.Getenv("SIM_GRPCLOG") != "" { // debugging only: perturbs nothing but costs syscalls
+		grpclog.SetLoggerV2(grpclog.NewLoggerV2WithVerbosity(os.Stderr, os.Stderr, os.Stderr, 2))
+		return
+	}
 	grpclog.SetLoggerV2(grpclog.NewLoggerV2(io.Discard, io.Discard, io.Discard))
 }
 
@@ -60,8 +69,19 @@ func (rawCodec) Unmarshal(data mem.BufferSlice, v any) error {
 // ---- scenario ----
 
 type KV struct {
-	K string `json:"k"`
-	V string `json:"v"`
+	K      string `json:"k"`
+	V      string `json:"v,omitempty"`
+	VHex   string `json:"v_hex,omitempty"`   // arbitrary bytes (JSON strings cannot carry invalid UTF-8)
+	Append bool   `json:"append,omitempty"`  // client: add with AppendToOutgoingContext instead of the base MD
+	RawKey bool   `json:"raw_key,omitempty"` // client: put the key into the MD map as is (no lower-casing): invalid-metadata cases
+}
+
+func (p KV) val() string {
+	if p.VHex != "" {
+		b, _ := hex.DecodeString(p.VHex)
+		return string(b)
+	}
+	return p.V
 }
 
 type Op struct {
@@ -71,6 +91,17 @@ type Op struct {
 	Code int    `json:"code,omitempty"`
 	Msg  string `json:"msg,omitempty"`
 	MD   []KV   `json:"md,omitempty"`
+	// return: status message as hex (arbitrary bytes) and detail strings
+	MsgHex  string   `json:"msg_hex,omitempty"`
+	Details []string `json:"details,omitempty"`
+}
+
+func (o Op) msg() string {
+	if o.MsgHex != "" {
+		b, _ := hex.DecodeString(o.MsgHex)
+		return string(b)
+	}
+	return o.Msg
 }
 
 type RPC struct {
@@ -203,9 +234,12 @@ type rpcState struct {
 	deadline     time.Time
 	finishedAt   time.Time
 	hdr          metadata.MD
+	haveHdr      bool
+	trailer      metadata.MD
 	srvMD        map[int]metadata.MD
 	srvDeadline  map[int]time.Time
 	srvCtxDoneAt map[int]time.Time
+	waitingCtx   map[int]bool
 	newStreamErr error
 }
 
@@ -217,6 +251,34 @@ type run struct {
 	rpcs   map[uint32]*rpcState
 	pool   *trackPool
 	faulty bool
+	trace  bool
+	// request HEADERS seen on the wire (client wrote), for C09
+	reqHeaders []reqHdr
+}
+
+type reqHdr struct {
+	rpc    uint32
+	conn   int
+	stream uint32
+	fields [][2]string
+}
+
+// sink sees every frame event before the ledger does.
+func (w *run) sink(f *tap.Frame) {
+	if f.Phase == 'w' && f.From == 'c' && f.Type == http2.FrameHeaders && w.sc.has("metadata") {
+		if v := f.Header("x-sim-rpc"); len(v) == 1 {
+			id, _ := strconv.ParseUint(v[0], 10, 32)
+			h := reqHdr{rpc: uint32(id), conn: f.Conn, stream: f.StreamID}
+			for _, hf := range f.Fields {
+				h.fields = append(h.fields, [2]string{hf.Name, hf.Value})
+			}
+			w.reqHeaders = append(w.reqHeaders, h)
+		}
+	}
+	if w.trace {
+		w.e.Logf("frame conn=%d %c%c type=%v stream=%d len=%d flags=%x inc=%d code=%v", f.Conn, f.From, f.Phase, f.Type, f.StreamID, f.Length, f.Flags, f.Increment, f.ErrCode)
+	}
+	w.led.Sink(f)
 }
 
 func (w *run) Submitted(k tap.StreamKey) []int {
@@ -244,7 +306,14 @@ func (w *run) Started(k tap.StreamKey) []int {
 func kvToMD(kv []KV) metadata.MD {
 	md := metadata.MD{}
 	for _, p := range kv {
-		md.Append(p.K, p.V)
+		if p.Append {
+			continue
+		}
+		if p.RawKey {
+			md[p.K] = append(md[p.K], p.val())
+		} else {
+			md.Append(p.K, p.val())
+		}
 	}
 	return md
 }
@@ -255,19 +324,20 @@ const defaultDeadline = 10 * time.Minute
 func Run(e *core.Env, sc *Scenario) {
 	w := &run{e: e, sc: sc, rpcs: map[uint32]*rpcState{}}
 	w.faulty = len(sc.Faults) > 0
+	w.trace = sc.has("trace")
 	w.net = simnet.New(e, sc.Net, sc.Faults)
 	w.led = tap.NewLedger(e, w)
 	w.led.CheckWindows = sc.has("windows")
 	w.led.CheckBytes = sc.has("bytes")
 	w.led.CheckStreams = sc.has("streams")
 	w.led.CheckMCS = sc.has("mcs")
-	w.net.OnConn = func(p *simnet.Pair) { tap.Attach(e, p, w.led.Sink) }
+	w.net.OnConn = func(p *simnet.Pair) { tap.Attach(e, p, w.sink) }
 	if sc.Pool {
 		w.pool = newTrackPool(e)
 	}
 	for i := range sc.RPCs {
 		r := &sc.RPCs[i]
-		w.rpcs[r.ID] = &rpcState{r: r, sStarted: map[int][]int{}, sSubmitted: map[int][]int{}, srvReturned: map[int]*status.Status{}, srvRecv: map[int]int{}, srvMD: map[int]metadata.MD{}, srvDeadline: map[int]time.Time{}, srvCtxDoneAt: map[int]time.Time{}}
+		w.rpcs[r.ID] = &rpcState{r: r, sStarted: map[int][]int{}, sSubmitted: map[int][]int{}, srvReturned: map[int]*status.Status{}, srvRecv: map[int]int{}, srvMD: map[int]metadata.MD{}, srvDeadline: map[int]time.Time{}, srvCtxDoneAt: map[int]time.Time{}, waitingCtx: map[int]bool{}}
 	}
 
 	// server
@@ -405,7 +475,26 @@ func Run(e *core.Env, sc *Scenario) {
 	}
 	wg.Wait()
 	e.Logf("all client goroutines done")
-	synctest.Wait()
+	w.settle()
+	if sc.has("deadline") {
+		// let every handler deadline pass, so that "the handler context is
+		// cancelled when the deadline passes" can be asserted at quiescence
+		var last time.Time
+		for _, st := range w.rpcs {
+			for _, dl := range st.srvDeadline {
+				if dl.After(last) {
+					last = dl
+				}
+			}
+		}
+		if d := time.Until(last); d > 0 {
+			time.Sleep(d + time.Microsecond)
+			w.settle()
+		}
+	}
+	if sc.has("stacks") {
+		e.LogStacks("at quiescence")
+	}
 	w.checkAtEnd()
 	conn.Close()
 	srv.Stop()
@@ -419,6 +508,32 @@ func Run(e *core.Env, sc *Scenario) {
 		w.pool.checkEnd(sc.has("pool"))
 	}
 	e.Notes["ledger"] = w.led.Summary()
+}
+
+// settle reaches quiescence in the sense of soundness rule S4: every goroutine
+// blocked AND no byte still travelling on the simulated network (a frame that
+// is 1 ns away from delivery is not "lost").
+func (w *run) settle() {
+	quiet := 0
+	// at least 10 us per round: the runtime may have put a goroutine to sleep
+	// for 1 us (spin guard, rt/mkpatch.py) at a busy instant
+	step := time.Duration(w.sc.Net.LatencyNs+w.sc.Net.DialDelayNs) + 10*time.Microsecond
+	if w.sc.Net.StallPct > 0 {
+		step += time.Duration(w.sc.Net.StallNs)
+	}
+	for i := 0; i < 200 && quiet < 6; i++ {
+		synctest.Wait()
+		d := w.net.InFlightDelay()
+		if d <= 0 {
+			quiet++
+		} else {
+			quiet = 0
+		}
+		// a chain of reactions (RST -> handler returns -> trailers -> ...) may
+		// need several network hops, each with its own latency and stall
+		time.Sleep(d + step)
+	}
+	synctest.Wait()
 }
 
 func (w *run) st(err error) *status.Status {
@@ -449,12 +564,21 @@ func (w *run) clientRPC(conn *grpc.ClientConn, st *rpcState) {
 	md := kvToMD(r.MD)
 	md.Set("x-sim-rpc", strconv.FormatUint(uint64(r.ID), 10))
 	ctx = metadata.NewOutgoingContext(ctx, md)
+	for _, p := range r.MD {
+		if p.Append {
+			ctx = metadata.AppendToOutgoingContext(ctx, p.K, p.val())
+		}
+	}
 	var opts []grpc.CallOption
 	if r.WaitReady {
 		opts = append(opts, grpc.WaitForReady(true))
 	}
 	e.Logf("rpc %d start", r.ID)
-	cs, err := conn.NewStream(ctx, &grpc.StreamDesc{ServerStreams: true, ClientStreams: true}, "/sim.Svc/M", opts...)
+	var cs grpc.ClientStream
+	err := w.api(st, "NewStream", func() (err error) {
+		cs, err = conn.NewStream(ctx, &grpc.StreamDesc{ServerStreams: true, ClientStreams: true}, "/sim.Svc/M", opts...)
+		return err
+	})
 	if err != nil {
 		st.newStreamErr = err
 		st.clientStatus = w.st(err)
@@ -475,11 +599,15 @@ func (w *run) clientRPC(conn *grpc.ClientConn, st *rpcState) {
 		} else {
 			st.clientStatus = w.st(err)
 		}
+		st.trailer = cs.Trailer()
+		if h, herr := cs.Header(); herr == nil {
+			st.hdr, st.haveHdr = h, true
+		}
 		e.Logf("rpc %d final status %v %q", r.ID, st.clientStatus.Code(), st.clientStatus.Message())
 	}
 	recvOne := func() error {
 		m := &Msg{}
-		err := cs.RecvMsg(m)
+		err := w.api(st, "RecvMsg", func() error { return cs.RecvMsg(m) })
 		if err != nil {
 			final(err)
 			return err
@@ -500,7 +628,7 @@ func (w *run) clientRPC(conn *grpc.ClientConn, st *rpcState) {
 			b := make([]byte, op.N)
 			tap.FillPat(b, r.ID, 'c', len(st.cStarted))
 			st.cStarted = append(st.cStarted, op.N)
-			err := cs.SendMsg(&Msg{B: b})
+			err := w.api(st, "SendMsg", func() error { return cs.SendMsg(&Msg{B: b}) })
 			e.Logf("rpc %d op %d send %d -> %v", r.ID, oi, op.N, errStr(err))
 			if err == nil {
 				st.cSubmitted = append(st.cSubmitted, op.N)
@@ -526,7 +654,7 @@ func (w *run) clientRPC(conn *grpc.ClientConn, st *rpcState) {
 				}
 			}
 		case "close_send":
-			err := cs.CloseSend()
+			err := w.api(st, "CloseSend", func() error { return cs.CloseSend() })
 			e.Logf("rpc %d op %d close_send -> %v", r.ID, oi, errStr(err))
 		case "cancel":
 			st.cancelled = true
@@ -535,7 +663,8 @@ func (w *run) clientRPC(conn *grpc.ClientConn, st *rpcState) {
 		case "sleep":
 			time.Sleep(time.Duration(op.Ns))
 		case "header":
-			h, err := cs.Header()
+			var h metadata.MD
+			err := w.api(st, "Header", func() (err error) { h, err = cs.Header(); return err })
 			st.hdr = h
 			e.Logf("rpc %d op %d header -> %v", r.ID, oi, errStr(err))
 		}
@@ -564,13 +693,42 @@ func errStr(err error) string {
 	return "non-status:" + err.Error()
 }
 
-func (w *run) checkDeadline(st *rpcState) {
+func (w *run) checkDeadline(st *rpcState) {}
+
+// api runs one blocking client API call and checks (C22) that it does not stay
+// blocked past the RPC's deadline: it must return no later than
+// max(call time, deadline) + slack.
+func (w *run) api(st *rpcState, name string, f func() error) error {
+	t0 := time.Now()
+	err := f()
 	if !w.sc.has("deadline") {
-		return
+		return err
 	}
-	if st.finishedAt.After(st.deadline) {
-		w.e.Violate("finished_after_deadline", "rpc %d finished %v after its deadline", st.r.ID, st.finishedAt.Sub(st.deadline))
+	const slack = 10 * time.Millisecond
+	t1 := time.Now()
+	limit := st.deadline
+	if t0.After(limit) {
+		limit = t0
 	}
+	if t1.After(limit.Add(slack)) {
+		w.e.Violate("blocked_past_deadline", "rpc %d: %s returned %v after the deadline", st.r.ID, name, t1.Sub(st.deadline))
+	}
+	if err != nil && err != io.EOF && t0.Before(st.deadline) && t1.After(st.deadline) {
+		// blocked across the deadline: the error is DEADLINE_EXCEEDED unless a
+		// real final status arrived in the same instant
+		if c := status.Code(err); c != codes.DeadlineExceeded && c != codes.Canceled {
+			ok := false
+			for _, s := range st.srvReturned {
+				if s != nil && s.Code() == c {
+					ok = true
+				}
+			}
+			if !ok && !w.faulty {
+				w.e.Violate("late_status_not_deadline_exceeded", "rpc %d: %s was blocked across the deadline and returned %v", st.r.ID, name, c)
+			}
+		}
+	}
+	return err
 }
 
 // checkRecv verifies an application-level received message (C05/C06 rider).
@@ -625,7 +783,14 @@ func (w *run) handler(_ any, ss grpc.ServerStream) error {
 		st.srvDeadline[att] = dl
 	}
 	script := r.Server[min(att, len(r.Server)-1)]
-	grpc.SetHeader(ctx, metadata.Pairs("x-sim-att", strconv.Itoa(att)))
+	for _, op := range script {
+		if op.Op == "send" {
+			// needed to attribute response payload bytes to this invocation;
+			// scripts without sends may produce a trailers-only response
+			grpc.SetHeader(ctx, metadata.Pairs("x-sim-att", strconv.Itoa(att)))
+			break
+		}
+	}
 	e.Logf("rpc %d handler start att=%d", r.ID, att)
 	ret := func(s *status.Status) error {
 		st.srvReturned[att] = s
@@ -696,11 +861,22 @@ func (w *run) handler(_ any, ss grpc.ServerStream) error {
 		case "set_trailer":
 			grpc.SetTrailer(ctx, kvToMD(op.MD))
 		case "wait_ctx":
+			st.waitingCtx[att] = true
 			<-ctx.Done()
 			st.srvCtxDoneAt[att] = time.Now()
 			return ret(status.FromContextError(ctx.Err()))
 		case "return":
-			return ret(status.New(codes.Code(op.Code), op.Msg))
+			rs := status.New(codes.Code(op.Code), op.msg())
+			if len(op.Details) > 0 && codes.Code(op.Code) != codes.OK {
+				var ds []protoadapt.MessageV1
+				for _, d := range op.Details {
+					ds = append(ds, &errdetails.DebugInfo{Detail: d})
+				}
+				if rs2, err := rs.WithDetails(ds...); err == nil {
+					rs = rs2
+				}
+			}
+			return ret(rs)
 		}
 	}
 	return ret(status.New(codes.OK, ""))
@@ -715,23 +891,18 @@ func (w *run) checkAtEnd() {
 			e.Violate("rpc_not_terminated", "rpc %d has no final status at quiescence", id)
 			continue
 		}
-		if w.sc.has("status_exact") && !w.faulty && !st.cancelled && st.r.DeadlineNs == 0 && len(w.sc.Actions) == 0 {
-			// fault-free, no cancellation, default (never reached) deadline:
-			// the client must see exactly what the last handler invocation returned
-			att := st.invocations - 1
-			if att < 0 {
-				e.Violate("status_mismatch", "rpc %d: handler never ran but client finished with %v", id, st.clientStatus.Code())
-				continue
-			}
-			want := st.srvReturned[att]
-			if want == nil {
-				e.Violate("status_mismatch", "rpc %d: handler attempt %d did not return but client finished with %v", id, att, st.clientStatus.Code())
-				continue
-			}
-			if want.Code() != st.clientStatus.Code() || want.Message() != st.clientStatus.Message() {
-				e.Violate("status_mismatch", "rpc %d: handler returned (%v, %q), client observed (%v, %q)", id, want.Code(), want.Message(), st.clientStatus.Code(), st.clientStatus.Message())
-			}
+		if w.sc.has("status_exact") {
+			w.checkStatus(st)
 		}
+		if w.sc.has("metadata") {
+			w.checkMetadata(st)
+		}
+		if w.sc.has("deadline") {
+			w.checkDeadlineSemantics(st)
+		}
+	}
+	if w.sc.has("metadata") {
+		w.checkWireMetadata()
 	}
 }
 
